@@ -39,22 +39,44 @@ def spell(addr, l, cls, platform):
 
 def check(arg):
     import cisco_acl
-    nets, cls, platform = arg
+    nets, cls, platform = arg[:3]
+    history = arg[3] if len(arg) > 3 else "fresh"
     C = getattr(cisco_acl, cls)
     mod = cisco_acl.address if cls == "Address" else cisco_acl.address_ag
     texts = [spell(a, l, cls, platform) for a, l in nets]
     if any(t is None for t in texts):
         return [], 0
     fails = []
-    inputs = dict(nets=[f"{quad(a)}/{l}" for a, l in nets], cls=cls, platform=platform)
+    inputs = dict(nets=[f"{quad(a)}/{l}" for a, l in nets], cls=cls, platform=platform, history=history)
 
     def bad(kind, what):
-        fails.append(dict(key=f"bounded/{cls}.collapse:{kind}", what=what, inputs=inputs,
+        fails.append(dict(key=f"bounded/{cls}.collapse:{kind}" + ("" if history == "fresh" else f":{history}"), what=what, inputs=inputs,
                           cmd=("import sys; sys.path.insert(0, 'props'); import C14\n"
                                f"fails, _ = C14.check({arg!r})\nprint([f['what'] for f in fails]); sys.exit(1 if fails else 0)\n")))
-    objs = [C(t, platform=platform, note="keep") for t in texts]
+    if history == "fresh":
+        objs = [C(t, platform=platform, note="keep") for t in texts]
+    else:
+        # the objects had another address before, were queried and collapsed, then re-addressed through a setter
+        prev = spell(BASE + 0x100, 30, cls, platform)
+        objs = [C(prev, platform=platform, note="keep") for _ in texts]
+        for o in objs:
+            o.ipnets()
+            o.subnet_of(objs[0])
+        mod.collapse(objs)
+        for o, t, (a, l) in zip(objs, texts, nets):
+            if history == "line":
+                o.line = t
+            elif history == "prefix":
+                o.prefix = f"{quad(a)}/{l}"
+            elif history == "prefix-queried":
+                o.prefix = f"{quad(a)}/{l}"
+                o.ipnets()
     try:
         res = mod.collapse(objs)
+        if history != "fresh":
+            res2 = mod.collapse(objs)
+            if [o.line for o in res2] != [o.line for o in res]:
+                bad("repeat", f"collapsing the same list twice gives {[o.line for o in res]} then {[o.line for o in res2]}")
     except Exception as ex:
         whole = sets.union_equal([sets.cube_of_prefix(a, l) for a, l in nets], [sets.cube(0, sets.M32)]) is None
         if isinstance(ex, ValueError) and cls == "AddressAg" and platform == "ios" and whole:
@@ -120,6 +142,9 @@ def main(chk):
             for cp in [("Address", "ios"), ("Address", "nxos"), ("AddressAg", "ios"), ("AddressAg", "nxos")]:
                 if cp != (cls, platform):
                     cases.append((c,) + cp)
+    hist = [c + (h,) for i, c in enumerate(cases) if len(c[0]) <= 2 and (chk.tier != "quick" or i % 5 == 0)
+            for h in ("line", "prefix", "prefix-queried")]
+    cases += hist
     res = pmap(check, cases)
     viol = 0
     for fails, _ in res:
@@ -128,7 +153,8 @@ def main(chk):
             chk.finding(f["key"], f["what"], inputs=f["inputs"], cmd=f.get("cmd"), key=f["key"])
     chk.add_bounded("collapse: covered set equal (exact trie algebra), never longer, sorted, notes empty, class/platform kept", len(cases), sum(d for _, d in res),
                     f"lists of <= {n} networks (any order, duplicates, nesting, adjacency) from the 31 prefixes of 10.0.0.0/28 plus /0 and both /1; both classes, both platforms "
-                    "(lists of maximal length are sampled 1 in 3/6)", viol, time.time() - t0, [[f"{quad(a)}/{l}" for a, l in cases[500][0]]], exhaustive=False)
+                    "(lists of maximal length are sampled 1 in 3/6); lists of <= 2 also on objects that held another address, were queried and collapsed, "
+                    f"then re-addressed through the line / prefix setters ({len(hist)} histories)", viol, time.time() - t0, [[f"{quad(a)}/{l}" for a, l in cases[500][0]]], exhaustive=False)
     res = pmap(check_refusal, ["nc", "foreign", "foreign2", "str", "nc-ag"])
     for fails, _ in res:
         for f in fails:
